@@ -126,6 +126,23 @@ def dposProposalVote : Ty :=
 /-- `Confirm`: proposal, `uint64` vote count, votes (after the `fix:` read element by element) -/
 def confirm : Ty := .struct [dposProposal, .list 8 none 0 256 dposProposalVote]
 
+/-! p2p messages whose readers pre-size a slice from the wire count *after* checking it against a
+    protocol maximum (p2p/msg/inv.go, getblocks.go, addr.go) -/
+
+def maxInvPerMsg : Nat := 50000           -- msg.MaxInvPerMsg
+def maxBlockLocatorsPerMsg : Nat := 500   -- msg.MaxBlockLocatorsPerMsg
+def maxAddrPerMsg : Nat := 1000           -- msg.MaxAddrPerMsg
+
+def invVect : Ty := .struct [u32, hash256]
+/-- `Inv` (also getdata / notfound): `make([]InvVect, count)` + `make([]*InvVect, 0, count)` -/
+def invMsg : Ty := .list 4 (some maxInvPerMsg) 48 48 invVect
+/-- `GetBlocks`: `make([]Uint256, count)` + `make([]*Uint256, 0, count)`, then the stop hash -/
+def getBlocksMsg : Ty := .struct [.list 4 (some maxBlockLocatorsPerMsg) 48 0 hash256, hash256]
+/-- `NetAddress`: timestamp, services, 16-byte IP, port -/
+def netAddress : Ty := .struct [u64, u64, .fixed 16, u16]
+/-- `Addr`: `make([]NetAddress, count)` + `make([]*NetAddress, 0, count)`; each element boxes its IP -/
+def addrMsg : Ty := .list 8 (some maxAddrPerMsg) 80 96 netAddress
+
 /-! header, block -/
 
 def btcTxIn : Ty := .struct [hash256, u32, .varBytes maxScriptSize, u32]
